@@ -28,6 +28,10 @@ func (c *Ctx) WhoCalls(r *Rule, target types.Object, targetName string, allowed 
 		name := CallerName(s.Caller)
 		seen[name] = true
 		if _, ok := allowed[name]; !ok {
+			if c.privateHelperOf(s.Caller, allowed, 0) {
+				r.Note("%s is called from %s, an unexported helper whose every caller is in the allowed-caller table", targetName, name)
+				continue
+			}
 			r.Fail(targetName+" called from "+name, c.P.Pos(s.Call.Pos()), "%s is called from %s, which is not in the allowed-caller table", targetName, name)
 		}
 	}
@@ -36,6 +40,45 @@ func (c *Ctx) WhoCalls(r *Rule, target types.Object, targetName string, allowed 
 			r.Note("allowed caller %s (%s) no longer calls %s", name, reason, targetName)
 		}
 	}
+}
+
+// privateHelperOf reports whether fn is an unexported function all of whose static call
+// sites (at least one) lie in allowed functions of the same package or, recursively, in such
+// helpers: code extracted from an allowed function stays covered by the table entry of
+// that function.  A function that is also used as a value (not only called) does not qualify.
+func (c *Ctx) privateHelperOf(fn *FuncSrc, allowed Allowed, depth int) bool {
+	if fn == nil || fn.Obj == nil || depth > 3 || fn.Obj.Exported() {
+		return false
+	}
+	sites := c.P.CallsTo(fn.Obj)
+	if len(sites) == 0 {
+		return false
+	}
+	// every use of the function object must be one of the indexed calls
+	uses := 0
+	for id, o := range fn.Pkg.TypesInfo.Uses {
+		if o == fn.Obj && id != nil {
+			uses++
+		}
+	}
+	if uses != len(sites) {
+		return false
+	}
+	for _, s := range sites {
+		if s.Caller == nil || s.Caller.Pkg != fn.Pkg {
+			return false
+		}
+		if s.Caller == fn {
+			continue
+		}
+		if _, ok := allowed[CallerName(s.Caller)]; ok {
+			continue
+		}
+		if !c.privateHelperOf(s.Caller, allowed, depth+1) {
+			return false
+		}
+	}
+	return true
 }
 
 // Callers lists the distinct callers of target.
@@ -62,6 +105,10 @@ func (c *Ctx) WhoWrites(r *Rule, obj types.Object, objName string, allowed Allow
 			continue
 		}
 		if accept != nil && accept(s) {
+			continue
+		}
+		if c.privateHelperOf(s.Caller, allowed, 0) {
+			r.Note("%s is written in %s, an unexported helper whose every caller is in the allowed-writer table", objName, name)
 			continue
 		}
 		r.Fail(objName+" written in "+name, c.P.Pos(s.Node.Pos()), "%s is written (%s) in %s, which is not in the allowed-writer table", objName, s.How, name)
@@ -101,6 +148,7 @@ func (p *Program) CallsNamed(name string) []CallSite {
 // has the given canonical form (regexp).
 func MCallNamed(name, recvRe string) Matcher {
 	rx := regexp.MustCompile(recvRe)
+	NoInlineNamesGlobal[name] = true
 	return Matcher{Desc: "call " + name + " on " + recvRe, Ok: true, M: func(f *Fn, n ast.Node) bool {
 		ce, ok := n.(*ast.CallExpr)
 		if !ok {
@@ -113,3 +161,7 @@ func MCallNamed(name, recvRe string) Matcher {
 		return rx.MatchString(f.Canon(sel.X))
 	}}
 }
+
+// NoInlineNamesGlobal collects the method names rules match by name (MCallNamed); functions
+// with these names are never inlined.
+var NoInlineNamesGlobal = map[string]bool{}
